@@ -82,11 +82,23 @@ func registerCustom() {
 	_ = slog.RegisterLevel(custPln, "custplain")
 }
 
+// failingWriter: pool index of a writer whose Write always returns an error (-1: none). Routing must not
+// depend on whether some destination fails (the reaction to failures itself is property C13).
+var failingWriter = -1
+
 func interp(script []Step, skipUngiven bool) (obs []Obs) {
 	given := map[int]bool{}
 	defer vlib.Canon()()
 	registerCustom()
 	log := vlib.NewEventLog()
+	if fw := failingWriter; fw >= 0 {
+		log.Fault = func(w, _ int, p []byte) (int, error) {
+			if w == fw {
+				return 0, vlib.ErrInjected
+			}
+			return len(p), nil
+		}
+	}
 	pool := make([]vlib.Writer, nPool)
 	for i := range pool {
 		pool[i] = vlib.NewRec(log, i, i) // kinds cycle: plain, closer, level-settable, closer+level-settable, plain, closer
@@ -326,6 +338,9 @@ func verify(t vlib.TB, script []Step, obs []Obs, stdCount func(n int, tok string
 			got := map[int]int{}
 			for _, e := range o.Events {
 				if e.Kind == "write" {
+					if !e.Tok && failingWriter >= 0 {
+						continue // the diagnostic warning about the failing destination (C13)
+					}
 					got[e.W]++
 					if !e.Tok || !e.NL {
 						t.Fatalf("C03 writer w%d received a payload that is not the probe record: %s", e.W, hist(n))
@@ -351,6 +366,9 @@ func verify(t vlib.TB, script []Step, obs []Obs, stdCount func(n int, tok string
 			for i, e := range o.Events {
 				if e.Kind != "write" || !settable(e.W) {
 					continue
+				}
+				if !e.Tok && failingWriter >= 0 {
+					continue // the diagnostic warning is announced at its own severity
 				}
 				ok := false
 				// all events of a probe belong to one record; a writer listed twice gets two
@@ -562,6 +580,11 @@ func TestRoutingHistories(t *testing.T) {
 
 	rapid.Check(t, func(t *rapid.T) {
 		script := genScript(t, 3, 30)
+		failingWriter = -1
+		if rapid.IntRange(0, 4).Draw(t, "aWriterFails") == 0 {
+			failingWriter = rapid.IntRange(0, nPool-1).Draw(t, "failingWriter")
+		}
+		defer func() { failingWriter = -1 }()
 		// every per-logger default list created from now on points at the capture files
 		os.Stdout, os.Stderr = capOut, capErr
 		o0, _ := capOut.Seek(0, io.SeekEnd)
@@ -577,6 +600,9 @@ func TestRoutingHistories(t *testing.T) {
 			}
 			return stdObs{known: true, out: bytes.Count(outB, []byte(tok)), err: bytes.Count(errB, []byte(tok))}
 		})
+		if failingWriter >= 0 {
+			labels["a-destination-fails"] = true
+		}
 		classify("TestRoutingHistories", script, labels)
 		if st, _ := capOut.Stat(); st != nil && st.Size() > 32<<20 {
 			_ = capOut.Truncate(0)
